@@ -57,7 +57,9 @@ THEOREMS = ["nnid_range", "fill_wellformed", "fill_loads_exactly", "attempts_bou
             "start_signal_once", "start_signal_count", "start_once_oracle_holds",
             # send_signal / count_cores_in_state / wait_for_cores_to_reach_state (Props/C09Sig.lean)
             "signal_types_total", "signal_packing_exact", "start_signal_is_send_signal", "count_packing_exact",
-            "count_cores_sum", "count_cores_invalid", "wait_returns_count", "wait_terminates_under_clock_progress"]
+            "count_cores_sum", "count_cores_invalid", "wait_returns_count", "wait_terminates_under_clock_progress",
+            # the stale-waiter findings, sharply (Props/C09Stale.lean)
+            "postOk_false_iff", "count_masks", "load_sound_iff_preclean_needed"]
 
 RULE = ("cases = (machine of 1-40 chips: rectangles at several origins incl. aligned 4x4/8x8 blocks, scattered chips up to "
         "coordinate 255; 1-3 binaries of length around multiples of the buffer (buffer in {4,8,16,64,128,256}); core sets "
@@ -581,14 +583,29 @@ def eval_cases(ctx, cases):
         reqs += [b[1] for b in batch]
     replies = ctx.lean(reqs)
     pos = 0
+    judged = []
     for case, res, kinds, n_fills in metas:
         rs = replies[pos:pos + len(kinds)]
         pos += len(kinds)
-        judge(ctx, case, res, kinds, rs, n_fills, k)
+        judged.append((case, res, kinds, rs, n_fills))
+    # a post-condition violation is filed under a known stale-waiter finding only if the proved predicate
+    # (staleMasks / staleHides, theorem load_sound_iff_preclean_needed) holds of the pre-state, the request and
+    # the violating cores
+    stale_reqs, stale_idx = [], {}
+    for i, (case, res, kinds, rs, n_fills) in enumerate(judged):
+        for kind, r in zip(kinds, rs):
+            if kind == "post" and "ok" in r and not r["ok"]:
+                stale_idx[i] = len(stale_reqs)
+                stale_reqs.append(dict(suite="c09", op="stale", chips=case["chips"], before=res["before"],
+                                       apps=case["apps"], app_id=case["app_id"], wait=case["wait"],
+                                       use_count=case["use_count"], missed=r["bad"]))
+    stale = ctx.lean(stale_reqs) if stale_reqs else []
+    for i, (case, res, kinds, rs, n_fills) in enumerate(judged):
+        judge(ctx, case, res, kinds, rs, n_fills, k, stale[stale_idx[i]] if i in stale_idx else None)
 
 
-def judge(ctx, case, res, kinds, rs, n_fills, k):
-    for r in rs:
+def judge(ctx, case, res, kinds, rs, n_fills, k, stale=None):
+    for r in list(rs) + ([stale] if stale else []):
         if "proto_error" in r:
             raise Infra("lean driver: %s" % r["proto_error"])
     clean = preclean(case)
@@ -646,19 +663,15 @@ def judge(ctx, case, res, kinds, rs, n_fills, k):
     if "post" in by:
         r = by["post"][0]
         if not r["ok"]:
-            pre = {(x, y, p): (st, app) for x, y, p, st, app, _ in case["pre"]}
-            requested = {(x, y, p) for a in case["apps"] for x, y, cs in a["targets"] for p in cs}
-            keys = set()
-            for c in r["bad"]:
-                c = tuple(c)
-                if clean or c not in requested:
-                    keys.add("load-unsound" if outcome == "ok" else "error-inexact")
-                elif pre.get(c, (IDLE, 0))[0] == WAIT:
-                    keys.add("readback-stale-waiter")
-                elif case["use_count"] and outcome == "ok":
-                    keys.add("count-shortcut-stale-waiters")
+            if outcome == "ok":
+                # theorem load_sound_iff_preclean_needed: unsound iff staleMasks(pre, request, violating cores)
+                if stale["masks"]:
+                    keys = {"readback-stale-waiter" if stale["self"] else "count-shortcut-stale-waiters"}
                 else:
-                    keys.add("load-unsound" if outcome == "ok" else "error-inexact")
+                    keys = {"load-unsound"}
+            else:
+                keys = {"readback-stale-waiter" if stale["hides"] else "error-inexact"}
+            ctx.tag("post_violation_" + sorted(keys)[0])
             for key in sorted(keys):
                 ctx.violation(key, "%s but cores %r do not satisfy the post-condition (requested cores hold their "
                               "binary under the app id and wait/run as asked, error names exactly the unloaded cores, "
